@@ -197,3 +197,23 @@ fn k_debt_wakeup_formula() {
     assert!(w >= by_factor && w >= p.min_sleep as f64 && (w == by_factor || w == p.min_sleep as f64),
             "[metrics] wake-up amount = max(min_sleep, sleep_factor x survivors)");
 }
+
+/// C09 / C10 (bounded stand-in): the credit side of the debt formula pairs each work counter with ITS OWN factor.  Relational float queries over
+/// symbolic factors do not terminate in CBMC, so the factors are the concrete distinct powers of two below and the counters are < 2^8; with
+/// these the reference value max(0, allocated - sum(counter x factor)) is exact.
+#[kani::proof]
+fn k_debt_formula_pairing() {
+    let m = Metrics::new();
+    m.set_pacing(Pacing { sleep_factor: 1.0, min_sleep: 0, mark_factor: 0.5, trace_factor: 0.25, keep_factor: 2.0, drop_factor: 4.0, free_factor: 0.125 });
+    let (al, mk, tr, rm, dr, fr): (u8, u8, u8, u8, u8, u8) = (kani::any(), kani::any(), kani::any(), kani::any(), kani::any(), kani::any());
+    let c = Counters { total: 1, allocated: al as usize, dropped: dr as usize, freed: fr as usize, marked: mk as usize, traced: tr as usize, remembered: rm as usize };
+    set_counters(&m, &c);
+    set_floats(&m, 0.0, 0.0);
+    let d = m.allocation_debt();
+    // exact integer arithmetic in eighths
+    let debits8 = 8 * al as i64;
+    let credits8 = 4 * mk as i64 + 2 * tr as i64 + 16 * rm as i64 + 32 * dr as i64 + fr as i64;
+    let expect8 = if debits8 - credits8 > 0 { debits8 - credits8 } else { 0 };
+    assert!(d * 8.0 == expect8 as f64, "[metrics] debt = max(0, allocated - (marked x mark_factor + traced x trace_factor + remembered x keep_factor + dropped x drop_factor + freed x free_factor))");
+    kani::cover!(d > 0.0 && credits8 > 0);
+}
